@@ -72,6 +72,29 @@ func dependsOnValue(v ssa.Value, pred func(ssa.Value) bool, seen map[ssa.Value]b
 			}
 		}
 	}
+	// the result of a module function also depends on what that function returns (field-based predicates can match inside it)
+	if call, ok := v.(*ssa.Call); ok {
+		if sc := call.Common().StaticCallee(); sc != nil && isModuleFn(sc) && depth < 30 {
+			for _, r := range returnsOf(sc) {
+				for _, res := range r.Results {
+					if dependsOnValue(res, pred, seen, depth+5) {
+						return true
+					}
+				}
+			}
+		}
+	}
+	if ex, ok := v.(*ssa.Extract); ok {
+		if call, ok := ex.Tuple.(*ssa.Call); ok {
+			if sc := call.Common().StaticCallee(); sc != nil && isModuleFn(sc) && depth < 30 {
+				for _, r := range returnsOf(sc) {
+					if ex.Index < len(r.Results) && dependsOnValue(r.Results[ex.Index], pred, seen, depth+5) {
+						return true
+					}
+				}
+			}
+		}
+	}
 	if ins, ok := v.(ssa.Instruction); ok {
 		for _, op := range ins.Operands(nil) {
 			if *op != nil && dependsOnValue(*op, pred, seen, depth+1) {
